@@ -690,3 +690,66 @@ def first_bad_op(sess, tok_index):
         if tok_index < n:
             return name
     return "end"
+
+
+# ------------------------------------------------------------------------------------------- candidate finding F14 (C08's clause)
+def f14_scenario(mk_pair, caddr, caddr2, saddr, n_bytes, pings=0):
+    """Public API only.  Handshake; the server fills its congestion window with n_bytes of stream data that are lost; the
+    client (optionally after `pings` PINGs of which every other one is lost, to give the server several ACK ranges) sends 600
+    bytes of stream data from a NEW address; 30 ms later (delayed ACK due) the server calls datagrams_to_send():
+    _write_application writes PATH_CHALLENGE (checked against the flight space) and then ACK (not checked) into one packet,
+    which is in flight.  Returns the ledger before / after (private attributes are only read)."""
+    client, server, _, _ = mk_pair({"mds_c": 1200, "mds_s": 1200, "chain": 1, "cc": "reno"})
+    now = 1.0
+    client.connect(saddr, now=now)
+    for _ in range(6):
+        now += 0.001
+        for d, _a in client.datagrams_to_send(now):
+            server.receive_datagram(d, caddr, now)
+        for d, _a in server.datagrams_to_send(now):
+            client.receive_datagram(d, saddr, now)
+    sid = server.get_next_available_stream_id()
+    server.send_stream_data(sid, bytes(n_bytes))
+    for _ in range(400):
+        now += 0.002
+        server.datagrams_to_send(now)          # lost
+    for i in range(pings):
+        client.send_ping(i)
+        now += 0.0001
+        for d, _a in client.datagrams_to_send(now):
+            if i % 2 == 0:
+                server.receive_datagram(d, caddr, now)
+    client.send_stream_data(client.get_next_available_stream_id(), bytes(600))
+    now += 0.001
+    for d, _a in client.datagrams_to_send(now):
+        server.receive_datagram(d, caddr2, now)
+    now += 0.03
+    cw, bif, probe = server._loss.congestion_window, server._loss.bytes_in_flight, server._probe_pending
+    out = server.datagrams_to_send(now)
+    return {"stream_bytes": n_bytes, "pings": pings, "congestion_window": cw, "bytes_in_flight_before": bif,
+            "allowed": max(cw - bif, 0), "probe_pending": bool(probe), "bytes_in_flight_after": server._loss.bytes_in_flight,
+            "added_in_flight": server._loss.bytes_in_flight - bif, "datagrams": [len(d) for d, _a in out]}
+
+
+def f14_search(mk_pair, caddr, caddr2, saddr, pings=0, lo=13800, hi=14400):
+    """smallest-overshoot witness: the stream size that leaves 36..(36 + ACK size - 1) bytes of window"""
+    # the window left after the fill falls by one per stream byte: bisect for a remaining window of 36
+    a, b = lo, hi
+    best = None
+    for _ in range(14):
+        m = (a + b) // 2
+        r = f14_scenario(mk_pair, caddr, caddr2, saddr, m, pings)
+        if r["added_in_flight"] > r["allowed"] and not r["probe_pending"]:
+            best = r
+        if r["allowed"] >= 36:
+            a = m + 1
+        else:
+            b = m
+        if a >= b:
+            break
+    if best is None:
+        for m in range(max(lo, a - 8), a + 2):
+            r = f14_scenario(mk_pair, caddr, caddr2, saddr, m, pings)
+            if r["added_in_flight"] > r["allowed"] and not r["probe_pending"]:
+                return r
+    return best
